@@ -58,6 +58,14 @@ pub fn c09_run(args: &Args) -> i32 {
         eprintln!("MACHINERY: {m}");
         return 2;
     }
+    for h in &merged.hung {
+        let case = J::parse(h).unwrap_or(J::Null);
+        sink.report(
+            format!("hung|{h}"),
+            format!("a search neither honoured its limits nor the stop flag for more than 20 s - the go is never answered: {h}"),
+            case,
+        );
+    }
     // E2: the real executable, real clock, real threads
     let npos = if thorough { 12 } else { 4 };
     let stride = if thorough { 1 } else { 17 };
